@@ -130,10 +130,10 @@ CHECKS["C15"] = dict(
 CHECKS["C16"] = dict(
    technique="Lean 4 proofs over any ordered field (symmetry, linearity, non-negativity of the single-scatter formula), cache transparency, invalidation-table state machine for all setter histories, differential correspondence on the real ScatterSimulation",
    text="Proof: the model of the single-scatter estimate is invariant under exchanging the detectors, linear in the activity image, zero for zero activity and non-negative for non-negative ingredients, for any "
-        "number of scatter points; reads through the line-integral cache equal uncached reads for any read sequence; for every history (any length) of setters / set_up / process_data whose operations satisfy the "
-        "stated guard the state equals that of a freshly configured simulation, via an invalidation table proved faithful to the modelled setters; exactly which setters lack an invalidation is a theorem with three "
-        "negative witnesses = three listed known findings. Tie: the real SingleScatterSimulation on small phantoms: detector-exchange, linearity, cache on/off and setter histories vs fresh objects (bitwise), with the "
-        "state-machine observations compared with the model.",
+        "number of scatter points; reads through the line-integral cache equal uncached reads for any read sequence; for every history (any length) of setters — including an image changed IN PLACE and handed over again under the same pointer, proved to invalidate exactly like a new pointer — explicit down-sampling calls / set_up / process_data whose operations satisfy the "
+        "stated guard the state equals that of a freshly configured simulation, via an invalidation table proved faithful to the modelled setters; exactly which setters lack an invalidation is a theorem with "
+        "negative witnesses = listed known findings. The formula theorems take the incidence cosine of each detector as a separate input, so they cover BlocksOnCylindrical scanners too. Tie: the real SingleScatterSimulation on generated cylindrical, blocks and down-sampled templates: detector-exchange, linearity, zero, cache on/off and setter histories vs fresh objects (bitwise), detection_efficiency_no_scatter, with the "
+        "state-machine observations compared with the model; automatic zoom, downsample_images_to_scanner_size and random scatter-point placement (time() replaced by a seeded clock) by oracle only. One defect was repaired in /repo; five are listed known findings.",
    note=TB + "Compton cross-sections, detection efficiency and line integrals are uninterpreted non-negative quantities; OpenMP scatter paths are C18's.",
    design="DESIGN.md §4 C16")
 CHECKS["C19"] = dict(
@@ -141,9 +141,9 @@ CHECKS["C19"] = dict(
    text="Proof: the model of fourier_1d's iterative radix-2 loop equals the DFT definition for every power-of-two length over any commutative ring with a primitive root, inverse after forward returns the input, "
         "Parseval/Plancherel, impulse -> constant; bit reversal is the involutive permutation; ArrayFilter1DUsingConvolution(+SymmetricKernel) loops are the convolutions they claim for arbitrary kernel/input/output "
         "index ranges and boundary conditions and never read out of range; the padded-DFT route equals direct convolution when no wrap-around can occur (precise condition; witness that 'twice the length' alone is not enough); "
-        "separable filters commute in all axis orders; unit-sum kernels preserve the mean on constant support. 2-D/3-D convolution is partial (is_trivial defect) and a length-2 last dimension is rejected by the real inverse: "
+        "separable filters commute in all axis orders; unit-sum kernels preserve the mean on constant support; the influenced/influencing index ranges every convolution class reports are sound (1-D both boundary conditions, 2-D/3-D outer index) and tight (1-D); the DFT filter built from a kernel in frequency space is the same filter as the one built from the spatial kernel. 2-D/3-D convolution is partial (is_trivial defect) and a length-2 last dimension is rejected by the real inverse: "
         "negative witnesses = listed known findings. The 1-D convolution theorem (inverse DFT of the product of two DFTs = L x circular convolution, any length, any primitive root, any integral domain) is proved for the DFT by its definition; the real-data packing trick and the n-dimensional recursion remain correspondence-only. "
-        "Tie: real fourier/inverse_fourier (complex and real data, 1-3 D), ArrayFilter*UsingConvolution, ArrayFilterUsingRealDFTWithPadding, SeparableArrayFunctionObject on generated arrays against the model (exact Rat where no "
+        "Tie: real fourier/inverse_fourier (complex and real data, 1-3 D, lengths to 1024), ArrayFilter*UsingConvolution (incl. in-place calls, index-range queries, is_trivial), ArrayFilterUsingRealDFTWithPadding (spatial kernel, frequency-space constructor and setter, arbitrary spectrum, set_padding_range accept/reject), SeparableArrayFunctionObject, Gaussian/Metz edge cases on generated arrays against the model (exact Rat where no "
         "transcendental enters, Float with a derived bound otherwise); inversion/Parseval/impulse oracles on the implementation.",
    note=TB + "sin/cos tables are roots of unity in the theorems and Float in the driver; float rounding by derived bound; Metz/Gaussian kernel values not modelled.",
    design="DESIGN.md §4 C19")
